@@ -210,6 +210,14 @@ class Interp:
             bases.append(bv)
         c._bases = bases
         c.is_enum = any(isinstance(b, External) and b.dotted in ("enum.Enum", "enum.IntEnum") for b in bases)
+        # @dataclass / @dataclass(...): the generated __init__ is synthesised at instantiation from the annotated fields, in order
+        deco = [d.func if isinstance(d, ast.Call) else d for d in node.decorator_list]
+        c.dataclass_fields = [] if any(ast.unparse(d) in ("dataclass", "dataclasses.dataclass") for d in deco) else None
+        for d in node.decorator_list:
+            if c.dataclass_fields is None:
+                raise Unsupported("class decorator %s on %s" % (ast.unparse(d), node.name))
+            if isinstance(d, ast.Call) and any(k.arg in ("slots", "frozen", "kw_only", "init") for k in d.keywords):
+                raise Unsupported("dataclass option %s" % ast.unparse(d))
         outer = frame
         frame = Frame(None, _ClassScope(c, outer.locals))
         frame.module = outer.module
@@ -225,13 +233,24 @@ class Interp:
                 else:
                     c.attrs[st.targets[0].id] = v
             elif isinstance(st, ast.AnnAssign) and isinstance(st.target, ast.Name) and st.value is not None:
-                c.attrs[st.target.id] = self.eval(st.value, frame)
+                v = self.eval(st.value, frame)
+                if c.dataclass_fields is not None and "ClassVar" not in ast.unparse(st.annotation):
+                    if isinstance(v, DataclassField):
+                        c.dataclass_fields.append((st.target.id, v))
+                        if v.has_default:
+                            c.attrs[st.target.id] = v.default
+                        continue
+                    if isinstance(v, (list, dict, SetVal)) or type(v).__name__ == "ByteArr":
+                        raise PyExc("ValueError", "mutable default %s for field %s is not allowed: use default_factory" % (type(v).__name__, st.target.id))
+                    c.dataclass_fields.append((st.target.id, DataclassField(True, v, None)))
+                c.attrs[st.target.id] = v
             elif isinstance(st, ast.Expr) and isinstance(st.value, ast.Constant):
                 pass
             elif isinstance(st, ast.Pass):
                 pass
             elif isinstance(st, ast.AnnAssign):
-                pass
+                if c.dataclass_fields is not None and isinstance(st.target, ast.Name) and "ClassVar" not in ast.unparse(st.annotation):
+                    c.dataclass_fields.append((st.target.id, DataclassField(False, None, None)))
             else:
                 raise Unsupported("class body statement %s in %s" % (type(st).__name__, c.qualname))
         return c
@@ -362,6 +381,27 @@ class Interp:
         o = Obj(c)
         if isinstance(init, FuncVal):
             self.call_func(init, [o] + list(args), kwargs, force_body=True)
+        elif getattr(c, "dataclass_fields", None) is not None:
+            fields = [f for k in reversed(self.mro(c)) for f in (getattr(k, "dataclass_fields", None) or [])]
+            if len(args) > len(fields):
+                raise PyExc("TypeError", "%s() takes %d positional arguments but %d were given" % (c.name, len(fields), len(args)))
+            given = dict(zip([n for n, _ in fields], args))
+            for k, v in kwargs.items():
+                if k in given or k not in [n for n, _ in fields]:
+                    raise PyExc("TypeError", "%s() got an unexpected or repeated argument '%s'" % (c.name, k))
+                given[k] = v
+            for n, fd in fields:
+                if n in given:
+                    o.attrs[n] = given[n]
+                elif fd.factory is not None:
+                    o.attrs[n] = self.call(fd.factory, [])
+                elif fd.has_default:
+                    o.attrs[n] = fd.default
+                else:
+                    raise PyExc("TypeError", "%s() missing required argument '%s'" % (c.name, n))
+            post = self.class_lookup(c, "__post_init__")
+            if isinstance(post, FuncVal):
+                self.call_func(post, [o], {}, force_body=True)
         elif args or kwargs:
             ext = [b for k in self.mro(c) for b in (k._bases or []) if isinstance(b, External)]
             unpack = self.class_lookup(c, "unpack")
@@ -1269,6 +1309,13 @@ class ModuleRef:
 
     def module(self):
         return self.interp.module(self.name)
+
+
+class DataclassField:
+    """dataclasses.field(default=..., default_factory=...) / a plain default / no default"""
+
+    def __init__(self, has_default, default, factory):
+        self.has_default, self.default, self.factory = has_default, default, factory
 
 
 class _Unevaluated:
